@@ -16,9 +16,9 @@ CLAUSE_PROPERTY = {
     "unnamed": "C03",
     "carried": "C04",
     "fail_atomic": "C05",
-    "reported": "C06",
+    "reported": "C06", "acted_upon": "C06",
     "completion": "C07",
-    "contained": "C12",
+    "contained": "C12", "msg_intact": "C13", "msg_unshared": "C13",
     "envelope": "C14",
 }
 
@@ -282,7 +282,7 @@ def life_property(kind, clause):
     """which listed properties a failing clause of a life event speaks about"""
     if clause == "continuity":
         return ("C13", "C03")      # an object changed outside its own steps: shared content (C13) = a collateral edit (C03)
-    if clause == "msg_intact":
+    if clause in ("msg_intact", "msg_unshared"):
         return ("C13",)
     if clause == "msg_expose":
         return ("C13", "C20")
